@@ -251,6 +251,8 @@ fn pack_many_files(rng: &mut Rng, n: usize) -> IndexMap<String, Vec<u8>> {
 }
 /// file counts around the powers of two where a narrower integer or a shifted count would wrap
 const PACK_COUNT_BOUNDS: &[usize] = &[255, 256, 257, 4095, 4096, 4097, 20000];
+/// the upper edge of the statement's quantifier ("up to 65535 named files")
+const PACK_COUNT_EDGE: &[usize] = &[65534, 65535];
 
 fn pack_record(out_path: &str, runs: usize, max_files: usize, flags: &[&str]) {
     let big = flags.contains(&"big");
@@ -299,6 +301,28 @@ fn pack_record(out_path: &str, runs: usize, max_files: usize, flags: &[&str]) {
             let map = pack_many_files(&mut rng, *n);
             out.put(&pack_event(&map, "full"));
         }
+    }
+    if flags.contains(&"edge") || flags.contains(&"edge-full") {
+        // validated by TLC in full ("edge-full") or structurally for every entry with sampled contents ("edge")
+        let mode = if flags.contains(&"edge-full") { "full" } else { "sampled" };
+        for n in PACK_COUNT_EDGE {
+            let map = pack_many_files(&mut rng, *n);
+            out.put(&pack_event(&map, mode));
+        }
+        // one file more than the statement covers: nothing is demanded, the outcome is only reported
+        let map = pack_many_files(&mut rng, 65536);
+        let outcome = match pack_serialize(&map) {
+            Ok(b) => {
+                let back = catch(|| mila::fe9_arc::parse(&b));
+                match back {
+                    Ok(Ok(m)) => if m == map { "built and parses back".to_string() } else { format!("built, parses back as {} files", m.len()) },
+                    Ok(Err(e)) => format!("built, parse error: {}", e),
+                    Err(p) => format!("built, parse panic {}", p),
+                }
+            }
+            Err(e) => format!("refused: {}", e),
+        };
+        out.put(&json!({"mode": "beyond", "src": "random", "value": [], "ser": "ok", "bytes": [], "parsed": {"ok": true, "v": []}, "files": 65536, "outcome": outcome}));
     }
     if big {
         // the statement's upper limit: 65 535 (empty) files
@@ -474,15 +498,26 @@ fn arc_layout(rng: &mut Rng, names: &[String], bodies: &[Vec<u8>], allow_errors:
     if rng.chance(2, 3) {
         rng.shuffle(&mut items);
     }
+    if rng.chance(1, 5) {
+        // Info table (or Count word) first
+        let want_info = rng.chance(2, 3);
+        if let Some(k) = items.iter().position(|it| if want_info { matches!(it, It::Info) } else { matches!(it, It::Count) }) {
+            items.swap(0, k);
+        }
+    }
     let mut placed: Vec<It> = Vec::new();
-    if !padded {
+    // un-padded: the first data word must be non-zero.  A non-empty Info table (first word = text offset of a
+    // name) or a non-zero Count word may open the region; otherwise a lead gap with a non-zero byte does
+    let opens_nonzero = n >= 1 && matches!(items.first(), Some(It::Info) | Some(It::Count));
+    let table_first = !padded && opens_nonzero && rng.chance(2, 3);
+    if !padded && !table_first {
         // first data WORD non-zero (its first bytes may well be zero)
         let mut lead = vec![0u8; rng.below(4)];
         lead.push(rng.range(1, 255) as u8);
         placed.push(It::Gap(lead));
     }
-    for it in items {
-        if rng.chance(1, 4) {
+    for (k, it) in items.into_iter().enumerate() {
+        if rng.chance(1, 4) && !(table_first && k == 0) {
             let g = rng.range(1, 9);
             placed.push(It::Gap(rng.bytes(g)));
         }
@@ -517,7 +552,9 @@ fn arc_layout(rng: &mut Rng, names: &[String], bodies: &[Vec<u8>], allow_errors:
     }
     let end = pos;
     // planted defect
-    let kind = if allow_errors && rng.chance(1, 5) {
+    let kind = if allow_errors && n >= 1 && rng.chance(1, 12) {
+        "overlap" // conforming: one record's range is the Count word or the numeric fields of the first record
+    } else if allow_errors && rng.chance(1, 5) {
         *rng.pick(if n == 0 { &["nocount", "noinfo"][..] } else { &["nocount", "noinfo", "noname", "nameptr", "nameptr", "end", "start", "words", "words", "wrapsum"][..] })
     } else {
         "ok"
@@ -572,6 +609,16 @@ fn arc_layout(rng: &mut Rng, names: &[String], bodies: &[Vec<u8>], allow_errors:
                                 size = (0x1_0000_0000u64 - off) + rng.below(8) as u64 + if padded && rng.chance(1, 2) { 0 } else { 0x60 };
                                 size = size.clamp(1, 0xFFFF_FFFF);
                             }
+                        }
+                    }
+                    if j == victim && kind == "overlap" {
+                        if rng.chance(1, 2) {
+                            off = (count_addr - base) as u64;
+                            size = 4;
+                        } else {
+                            let skip = rng.below(3) * 4; // index / size / offset field onwards
+                            off = (info_addr + 4 + skip - base) as u64;
+                            size = (12 - skip) as u64;
                         }
                     }
                     if j == victim && kind == "wrapsum" {
@@ -1252,7 +1299,7 @@ fn main() {
     match a.as_slice() {
         ["pack-replay", cases, out] => pack_replay(cases, out, &format!("{}.events", out)),
         ["pack-replay", cases, out, events] => pack_replay(cases, out, events),
-        ["pack-record", out, runs, max_files, flags @ ..] if flags.iter().all(|f| ["big", "bounds"].contains(f)) => {
+        ["pack-record", out, runs, max_files, flags @ ..] if flags.iter().all(|f| ["big", "bounds", "edge", "edge-full"].contains(f)) => {
             pack_record(out, runs.parse().unwrap(), max_files.parse().unwrap(), flags)
         }
         ["arc-replay", cases, out] => arc_replay(cases, out),
